@@ -64,8 +64,11 @@ SYM_RE = re.compile(r"^([0-9a-f]+)?\s+([A-Za-z])\s+(\S+)$")
 
 def nm_symbols(lib):
     r = run(["nm", "--defined-only", lib]) if not lib.endswith(".so") else run(["nm", "-D", "--defined-only", lib])
+    out = r.stdout
+    if lib.endswith(".so"):   # dispatch slots are local data symbols of the shared object: take them from the full symbol table
+        out += "\n".join(l for l in run(["nm", "--defined-only", lib]).stdout.splitlines() if l.strip().endswith("_dispatched"))
     syms = {}
-    for l in r.stdout.splitlines():
+    for l in out.splitlines():
         m = SYM_RE.match(l.strip())
         if m and m.group(2) in "TtDdBbRr":
             syms[m.group(3)] = m.group(2)
